@@ -16,11 +16,18 @@ FLAGS_RAYON = " -Zmiri-tree-borrows -Zmiri-ignore-leaks"  # crossbeam-epoch need
 
 PLAN = {
     # prop: (mode, quick (workload seeds, miri seeds per workload), thorough)
-    "C02": ("checker", (2, 4), (24, 16)),
-    "C05": ("checker", (2, 4), (12, 16)),
-    "C10": ("vm", (8, 8), (120, 16)),
-    "C20": ("lock", (6, 8), (120, 16)),
+    "C02": ("checker", (12, 4), (192, 16)),
+    "C05": ("checker", (12, 4), (96, 16)),
+    "C10": ("vm", (24, 8), (480, 16)),
+    "C20": ("lock", (24, 8), (480, 16)),
 }
+
+
+def n_parallel():
+    try:
+        return max(1, min(16, int(os.environ.get("VERIF_WORKERS", "16"))))
+    except ValueError:
+        return 16
 
 
 def miri(mode, wseed, seed_lo, seed_hi, rate):
@@ -47,10 +54,21 @@ def run(prop, tier):
     t0 = time.time()
     runs = 0
     oks = []
-    for i in range(n_w):
+    # Workloads are independent Miri processes: the first runs alone (it also builds), the
+    # rest are spread over the cores. Results are consumed in workload order, so what is
+    # reported does not depend on which process finishes first.
+    from concurrent.futures import ThreadPoolExecutor
+    rates = [0.01, 0.05, 0.2, 0.5]
+    results = {0: miri(mode, base, 0, n_m, rates[0])} if n_w > 0 else {}
+    if results and results[0][0] == 0 and n_w > 1:
+        with ThreadPoolExecutor(n_parallel()) as ex:
+            futs = {i: ex.submit(miri, mode, base + i, 0, n_m, rates[i % 4]) for i in range(1, n_w)}
+            for i, f in futs.items():
+                results[i] = f.result()
+    for i in sorted(results):
         wseed = base + i
-        rate = [0.01, 0.05, 0.2, 0.5][i % 4]
-        rc, out, err, flags = miri(mode, wseed, 0, n_m, rate)
+        rate = rates[i % 4]
+        rc, out, err, flags = results[i]
         good = [l for l in out.splitlines() if l.startswith("ok ")]
         runs += len(good)
         oks.extend(good[:1])
